@@ -11,8 +11,9 @@ objects (there must be none) and duplicate builder `__name__`s (there must be no
 from __future__ import annotations
 import ast, builtins, glob, os, re, sys
 
-SRC = "/repo/mujoco_warp/_src"
-LEAN = "/verif/lean/MjwVerif/Model/ProcState.lean"
+import os
+SRC = os.path.join(os.environ.get("MJW_REPO", "/repo"), "mujoco_warp", "_src")
+LEAN = os.path.join(os.path.dirname(os.path.abspath(__file__)), "..", "..", "lean", "MjwVerif", "Model", "ProcState.lean")
 KINDS = {"int": ".nat", "bool": ".bool", "types.ConeType": ".enum", "TileSet": ".tile"}
 LISTS = {"primitive_collisions_types": ".listTuples", "primitive_collisions_func": ".listFuncs"}
 
@@ -109,8 +110,11 @@ def lean_rows():
 
 
 def main():
+  # line numbers are documentation only: a harmless edit elsewhere in the file moves them
+  strip = lambda r: re.sub(r'", \d+, \[', '", _, [', r)
   rows, problems = scan()
-  have = lean_rows()
+  rows = [strip(r) for r in rows]
+  have = [strip(h) for h in lean_rows()]
   bad = 0
   for r in rows:
     if r not in have:
